@@ -7,6 +7,8 @@ if '-r2-' in name:
     src = '/tmp/seed-out2/' + name.replace('-r2-', '-')
 elif '-r3-' in name:
     src = '/tmp/seed-out3/' + name.replace('-r3-', '-')
+elif '-r5-' in name:
+    src = '/tmp/seed-out5/' + name.replace('-r5-', '-')
 else:
     src = '/tmp/seed-out/' + name
 dst = '/verif/seeded/' + name
